@@ -18,6 +18,7 @@ Core Lean only.
   the default, and afterwards neither side sees the other's writes; `thread_isolation_state` is the
   state form of isolation;
 * `unknown_code_fails`, `unknown_code_fails_in_block`, `known_code_dispatches`;
+* `foreign_close_leaves_closer` — a generator block closed from another context does not touch the closer;
 * `explicit_call_ignores_ambient`, `explicit_call_outside` — an explicit method inside a block of any other code
   gives what it gives outside;
 * `deferred_entry_restores`, `deferred_entry_observation`, `thread_isolation_deferred` — manager objects built
@@ -37,7 +38,7 @@ def Ev.isExit : Ev → Bool
 
 /-- events that do not open or close a block -/
 def Ev.isAtom : Ev → Bool
-  | .get | .arith _ | .call _ _ | .spawnThread _ | .spawnTask _ => true
+  | .get | .arith _ | .call _ _ | .closeOther | .spawnThread _ | .spawnTask _ => true
   | _ => false
 
 /-- well-nested histories `H ::= ε | atom | enter d · H · (exit|raise|genClose) | H · H`, any depth -/
@@ -272,6 +273,17 @@ theorem explicit_call_ignores_ambient (op : Op) (d a : Code) {es : List Ev} (h :
 theorem explicit_call_outside (op : Op) (d : Code) (c : Ctx) :
     (trace c [.call op d]).map (fun tr => tr.map (·.res)) = some [some (method op d)] := by
   simp [trace, stepCtx, obsOf]
+
+/-- ★ closing a generator whose block was entered by another thread / task / Context (`reset(token)` raises
+ValueError in the closer) leaves the CLOSER's setting and open blocks exactly as they were: inside the closer's own
+block of code `a`, after any well-nested prefix, the observation after the foreign close is still `a`.  (What the
+starter is left with — its block is never restored, Python cannot reset another context — is outside the
+statement; the model keeps the starter's block open and the tie checks that.) -/
+theorem foreign_close_leaves_closer (a : Code) {es : List Ev} (h : Balanced es) (c : Ctx) :
+    ∃ tr, trace c (Ev.enter a :: (es ++ [.closeOther, .get])) = some tr ∧ tr.getLast?.map (·.code) = some a := by
+  have hb : Balanced (es ++ [.closeOther]) := Balanced.append h (Balanced.atom .closeOther rfl)
+  have := inside_observation a hb c
+  simpa [List.append_assoc] using this
 
 /-- `sub`/`div` exchange perfect and opposite and nothing else -/
 theorem swapPO_involutive (d : Code) : swapPO (swapPO d) = d := by
